@@ -207,7 +207,18 @@ func (tr *Tr) loopHeader(fr *Frame, li *loopInfo) {
 	// 2. havoc
 	li.phiVal = map[*ssa.Phi]Val{}
 	for _, p := range li.phis {
-		li.phiVal[p] = tr.freshVal(p.Type(), "L"+fmt.Sprint(li.ord)+"_"+p.Comment)
+		// a phi whose back-edge operands are all the phi itself does not change in the loop: keep its entry value
+		invariantPhi := true
+		for i, e := range p.Edges {
+			if fr.back[[2]int{p.Block().Preds[i].Index, p.Block().Index}] && e != ssa.Value(p) {
+				invariantPhi = false
+			}
+		}
+		if invariantPhi {
+			li.phiVal[p] = entryVals[p]
+		} else {
+			li.phiVal[p] = tr.freshVal(p.Type(), "L"+fmt.Sprint(li.ord)+"_"+p.Comment)
+		}
 		fr.env[p] = li.phiVal[p]
 	}
 	tr.havocLoop(fr, li)
@@ -471,6 +482,7 @@ func (tr *Tr) havocLoop(fr *Frame, li *loopInfo) {
 		r := f.BoundVar("r", S64)
 		tr.assume(f.Forall([]*Term{r}, f.Implies(f.ULt(r, preAlloc), f.Eq(f.Select(nh, r), f.Select(old, r))), []*Term{f.Select(nh, r)}),
 			"loop stores only into objects allocated inside the loop: earlier regions unchanged")
+		tr.frames2[nh] = frameInfo{old: old, maxRank: tr.allocSeq}
 		tr.set(fr.st, heapComp(k), nh)
 	}
 	for _, r := range regs {
